@@ -4,6 +4,7 @@ from .protocolentities import ExtendedTextMessageProtocolEntity
 from yowsup.layers.protocol_messages.protocolentities.attributes.converter import AttributesConverter
 from yowsup.layers.protocol_messages.protocolentities.attributes.attributes_message_meta import MessageMetaAttributes
 from yowsup.layers.protocol_receipts.protocolentities import OutgoingReceiptProtocolEntity
+from yowsup.layers.protocol_messages.proto.e2e_pb2 import Message
 
 import logging
 logger = logging.getLogger(__name__)
@@ -22,6 +23,14 @@ class YowMessagesProtocolLayer(YowProtocolLayer):
     def sendMessageEntity(self, entity):
         if entity.getType() == "text":
             self.entityToLower(entity)
+
+    @staticmethod
+    def isKeyDistributionOnly(protoData):
+        # a sender key distribution on its own precedes a participant's first group message and shows nothing; together
+        # with content that cannot be presented the message still has to be answered with a receipt
+        payload = Message()
+        payload.ParseFromString(protoData)
+        return payload.HasField("sender_key_distribution_message") and len(payload.ListFields()) == 1
 
     ###recieved node handlers handlers
     def recvMessageStanza(self, node):
@@ -43,7 +52,7 @@ class YowMessagesProtocolLayer(YowProtocolLayer):
                             MessageMetaAttributes.from_message_protocoltreenode(node)
                         )
                     )
-                elif not message.sender_key_distribution_message:
+                elif not self.isKeyDistributionOnly(protoNode.getData()):
                     # Will send receipts for unsupported message types to prevent stream errors
                     logger.warning("Unsupported message type: %s, will send receipts to "
                                    "prevent stream errors" % message)
